@@ -39,19 +39,16 @@ theorem find?_of_nodup_key {α : Type} (key : α → Vid) (l : List α) (hnd : (
       rw [this]
       exact ih hnd.2 h
 
-/-- The sites inputs can reach inside `make_query_component`: N-6, and N-2 when (`r`) some edge
-argument contains an enum literal. -/
-def PostSite (r : Bool) (s : Site) : Prop := CompSite r s
-
-/-- `r` accounts for every enum literal among the arguments of the component's recorded edges. -/
-def EdgesFlag (r : Bool) (cd : CD) : Prop :=
-  ∀ e ∈ cd.edges, argsHaveEnum e.conn.arguments = true → r = true
+/-- The sites inputs can reach inside `make_query_component`: N-6.  (Until the repair of N-2 /
+F-C10-2 also `.enumArgument`, under a flag `r` "some recorded edge has an enum literal among its
+arguments" — `EdgesFlag`.) -/
+def PostSite (s : Site) : Prop := CompSite s
 
 theorem componentPost_sat {S : SchemaView} (hS : ValidSchemaView S) {st : St} {cd : CD}
     (hinv : st.Inv) (hout : 0 < st.outStack.length) (hcd : CD.Inv S st cd)
-    (fillErrs : List FrontErr) {re : Bool} (hflag : EdgesFlag re cd)
+    (fillErrs : List FrontErr)
     (htop : fillErrs = [] → ∀ o ∈ st.topMap, o.2.vid ∈ cdVids cd) :
-    Sat (PostSite re) (componentPost S st cd fillErrs) (fun r =>
+    Sat PostSite (componentPost S st cd fillErrs) (fun r =>
       r.1.Inv ∧ r.1.path = st.path ∧ r.1.vidStack = st.vidStack ∧ r.1.nextVid = st.nextVid ∧
       r.1.nextEid = st.nextEid ∧ r.1.prefixes = st.prefixes ∧ r.1.globalOutputs = st.globalOutputs ∧
       st.outStack.length ≤ r.1.outStack.length + 1 ∧
@@ -61,8 +58,7 @@ theorem componentPost_sat {S : SchemaView} (hS : ValidSchemaView S) {st : St} {c
   unfold componentPost
   have hnd : (([] : List (Vid × String)).map (·.1) ++ cd.vertices.map (·.vid)).Nodup := by
     simpa using hcd.nodup
-  refine Sat.bind ((verticesLoop_sat S cd.props cd.vertices st fillErrs [] [] hinv hnd).monoK
-    (fun s h => Or.inl h)) fun r hr => ?_
+  refine Sat.bind (verticesLoop_sat S cd.props cd.vertices st fillErrs [] [] hinv hnd) fun r hr => ?_
   obtain ⟨hrinv, htag, more, hmore, hdone⟩ := hr
   split
   · rename_i hne
@@ -90,8 +86,7 @@ theorem componentPost_sat {S : SchemaView} (hS : ValidSchemaView S) {st : St} {c
         funext x; simp [hvid]
       rw [hcomp, this]
       simp [hvid]
-    refine Sat.bind ((edgesLoop_sat hS r.2.2.1 cd.edges [] hedges).monoK
-      (fun s h => Or.inr ⟨h.1, by obtain ⟨e, he, h'⟩ := h.2; exact hflag e he h'⟩))
+    refine Sat.bind ((edgesLoop_sat hS r.2.2.1 cd.edges [] hedges).monoK (fun s h => h.elim))
       fun edgeErrs _ => ?_
     split
     · rename_i hne
